@@ -234,6 +234,7 @@ func (g *Gen) idxSort() *Sort {
 }
 
 func (g *Gen) sortOf(t types.Type) *Sort {
+	t = types.Unalias(t)
 	if isTimeType(t) {
 		return sInt
 	}
@@ -279,7 +280,10 @@ func (g *Gen) sortOf(t types.Type) *Sort {
 }
 
 func isTimeType(t types.Type) bool {
-	if n, ok := t.(*types.Named); ok {
+	if t == nil {
+		return false
+	}
+	if n, ok := types.Unalias(t).(*types.Named); ok {
 		o := n.Obj()
 		return o.Pkg() != nil && o.Pkg().Path() == "time" && o.Name() == "Time"
 	}
@@ -287,7 +291,7 @@ func isTimeType(t types.Type) bool {
 }
 
 func isOpaqueStruct(t types.Type) bool {
-	if n, ok := t.(*types.Named); ok {
+	if n, ok := types.Unalias(t).(*types.Named); ok {
 		o := n.Obj()
 		if o.Pkg() != nil {
 			switch o.Pkg().Path() {
@@ -300,6 +304,7 @@ func isOpaqueStruct(t types.Type) bool {
 }
 
 func structKey(t types.Type) string {
+	t = types.Unalias(t)
 	if n, ok := t.(*types.Named); ok {
 		o := n.Obj()
 		p := ""
